@@ -92,9 +92,25 @@ def _body(mod, fn, params, mode):
     return run
 
 
+class _TaskTimeout(BaseException):
+    pass
+
+
+def _alarm(signum, frame):
+    raise _TaskTimeout()
+
+
 def _child(task):
+    import signal
+
     prop, inst, mode_d, caps = task
     t0 = time.time()
+    hard = int(caps.get("task_wall_cap", 900))
+    try:
+        signal.signal(signal.SIGALRM, _alarm)
+        signal.alarm(hard)
+    except Exception:  # noqa
+        pass
     try:
         mod = harness_module(prop)
         if getattr(mod, "RLIMIT", None):
@@ -102,10 +118,17 @@ def _child(task):
         mode = Mode(mode_d.get("known", ()), mode_d.get("confirm"))
         r = core.explore(_body(mod, inst["fn"], inst["params"], mode), max_paths=caps.get("max_paths", 200000),
                          wall_cap=caps.get("wall_cap"))
+    except _TaskTimeout:
+        core.CTX = None
+        r = dict(result="inconclusive", why="task wall-clock safety net (%d s) hit" % hard)
     except core.EngineError as e:
         r = dict(result="error", why="EngineError: %s" % e)
     except BaseException as e:  # noqa
         r = dict(result="error", why="%s: %s\n%s" % (type(e).__name__, e, traceback.format_exc()[-1500:]))
+    try:
+        signal.alarm(0)
+    except Exception:  # noqa
+        pass
     r["key"] = inst["key"]
     r["fn"] = inst["fn"]
     r["params"] = inst["params"]
